@@ -154,7 +154,8 @@ def _run_property(ctx):
                       found=False, classify=False)
 
 
-MERGE_MODEL_THEOREMS = []
+MERGE_MODEL_THEOREMS = ['Nbdime.C09_validated_childrenFirst', 'Nbdime.C09_decideMerge_childrenFirst']
+THEOREMS.extend(t for t in MERGE_MODEL_THEOREMS if t not in THEOREMS)
 
 
 def run(ctx):
